@@ -272,7 +272,12 @@ def main(ctx):
     # option sets, through oj, sen, alt, pretty) in fresh processes
     cases += option_cases(ctx, q)
     for k in range(2 if q else 6):
-        cases.append({"free": {"n": 16, "ops": 40 if q else 200, "runs": 1, "procs": (0, 4)[k % 2], "only": "cold ", "seed": ctx.seed + k}})
+        cases.append({"free": {"n": 16, "ops": 40 if q else 200, "runs": 1, "procs": (0, 4)[k % 2], "only": "cold", "seed": ctx.seed + k}})
+    # by-value structs with pointer-receiver members (per-argument distinguishable), through every encoder; the reader
+    # front-ends of every package on documents of several read buffers behind readers that yield between reads
+    cases.append({"free": {"n": 8, "ops": 60 if q else 400, "runs": 1 if q else 4, "procs": 0, "only": "(holder"}})
+    cases.append({"free": {"n": 8, "ops": 24 if q else 150, "runs": 1 if q else 4, "procs": 0, "only": "(slow"}})
+    cases.append({"free": {"n": 16, "ops": 12 if q else 80, "runs": 1 if q else 3, "procs": 2, "only": "(slow"}})
     recs = judge(ctx, cases)
     for r in recs:
         ctx.add(r["api"], r["kind"], r["locus"], r["witness"], case=r["case"], detail=r.get("detail"))
@@ -286,7 +291,7 @@ def main(ctx):
                        "around 1024 / 4096 / 65536 bytes) and focused menus in fresh processes (nested recomposer types on first "
                        "use, shared filters with multi-valued operands, buffer-returning calls); every recorded run "
                        "judged by TLC. distinct_nontrivial = distinct program tuples replayed."
-                       % ("pool.Get/pool.Put gates (hooks present) and whole calls" if hooks else "whole calls (no hooks in the tree)", 85))
+                       % ("pool.Get/pool.Put gates (hooks present) and whole calls" if hooks else "whole calls (no hooks in the tree)", 120))
     ctx.sample(scheds[len(scheds) // 2])
     ctx.sample(cases[1])
     ctx.assumptions += [
